@@ -201,6 +201,8 @@ pub struct Enabled {
     pub alive_agents: usize,
     /// `Consume` is allowed.
     pub can_consume: bool,
+    /// Fine-grained mode: an agent is parked in the middle of a critical section.
+    pub cs_held: bool,
 }
 
 pub struct Executor {
@@ -281,6 +283,7 @@ impl Executor {
         }
         e.guards = self.table_guards();
         let cs_held = self.cs_held();
+        e.cs_held = cs_held;
         for a in &self.agents {
             if !a.alive() {
                 continue;
